@@ -1,4 +1,5 @@
 import Verif.Lemmas.Merge
+import Verif.Lemmas.HeapMerge
 /-! # C04 — Multi-container merge conserves records and time order
 
 `Run srcs out` is the specification of `dockerlog.mergeIter`: every output record is a head with
@@ -53,5 +54,28 @@ example : Tagged [[⟨1,0,0⟩, ⟨3,0,1⟩], [], [⟨1,2,0⟩]] := by
   | 0, _ => simp at hx; rcases hx with rfl | rfl <;> rfl
   | 1, _ => simp at hx
   | 2, _ => simp at hx; subst hx; rfl
+
+/-! ## the algorithm that exists: binary heap over `container/heap`
+
+`HeapMerge.merge` is the operational model of `mergeIter` (sift loops of `container/heap`, ties included); the
+C04 correspondence compares it with the implementation's output order record for record. -/
+
+/-- **C04 (the heap-based merge meets the specification)**: at every step it emits a head of minimal
+timestamp and it ends when every source is exhausted — for any number of sources, any lengths, any ties,
+sorted or not. -/
+theorem C04_heap_merge_is_run (srcs : List (List Rec)) : Run srcs (HeapMerge.merge srcs) :=
+  HeapMerge.merge_is_run srcs
+
+/-- **C04 (conservation)** for the algorithm: every record of every container exactly once -/
+theorem C04_heap_merge_perm (srcs : List (List Rec)) : (HeapMerge.merge srcs).Perm srcs.flatten :=
+  HeapMerge.merge_perm srcs
+
+/-- **C04 (time order)** for the algorithm: time-sorted container logs merge into a time-sorted stream -/
+theorem C04_heap_merge_sorted (srcs : List (List Rec)) (hs : ∀ s ∈ srcs, SortedTs s) :
+    SortedTs (HeapMerge.merge srcs) :=
+  HeapMerge.merge_sorted srcs hs
+
+example : HeapMerge.merge [[⟨1,0,0⟩, ⟨5,0,1⟩], [⟨10,1,0⟩], [⟨3,2,0⟩]] = [⟨1,0,0⟩, ⟨3,2,0⟩, ⟨5,0,1⟩, ⟨10,1,0⟩] := by
+  decide +kernel
 
 end Merge
